@@ -51,11 +51,21 @@ def key_of(f) -> str:
     return f.get('witness', {}).get('key') or f['what']
 
 
-CONFIGS = {'quick': dict(configs=[(1, 1, 2)], n_clients=2, n_validate=3, tsan_runs=2, sample_every=97),
-           'thorough': dict(configs=[(1, 1, 3), (2, 1, 2), (1, 2, 2)], n_clients=2, n_validate=4, tsan_runs=6,
+# (claim/use/release cycles per client, out-events, preemption bound, client threads)
+CONFIGS = {'quick': dict(configs=[(1, 1, 2, 2)], n_validate=3, tsan_runs=2, sample_every=97),
+           'thorough': dict(configs=[(1, 1, 3, 2), (2, 1, 2, 2), (1, 2, 2, 2)], sparse_configs=[(1, 1, 2, 3)], sparse_every=6,
+                            n_validate=4, tsan_runs=6,
                             sample_every=211)}
+
+
+BOUNDS = {'quick': 'multi-client programs of the family; 2 client threads + environment thread; 1 claim/use/release '
+                   'cycle per client, 1 out-event, every schedule with <= 2 preemptions (827 per program)',
+          'thorough': 'multi-client programs of the family incl. extra models; 2 client threads + environment: '
+                      '(1 cycle, 1 out-event, <= 3 preemptions), (2 cycles, 1 out-event, <= 2), (1 cycle, 2 out-events, '
+                      '<= 2); 3 client threads (1 cycle, 1 out-event, <= 2 preemptions) on every 6th program'}
 
 
 def extra(tier, seed, scratch, log):
     return ss.run_prop('C11', 'mc_threads', tier, seed, log, CONFIGS[tier], key_of,
-                       only=lambda cp: cp[1].multiclient is not None, routing_validation=False)
+                       only=lambda cp: cp[1].multiclient is not None, routing_validation=False,
+                       bounds=BOUNDS[tier])
